@@ -24,6 +24,19 @@ ASSUMPTIONS = TRUSTED + ["NOT decided: that the merge / prefix / tail-cut bookke
 RB = "ribana."
 
 
+
+def _nn_args(ctx, c):
+    """arguments of a get_nn_dist call in the order of its signature (tree, point, max, min, flags, wanted flag), however the call
+    spells them (by position or by keyword)"""
+    from sa.plumbing import bind_call
+    _, f = ctx.prog.func(RB + "get_nn_dist")
+    bound, params, star = bind_call(c, f, False)
+    out = [bound.get(p_) for p_ in params[:6]]
+    if star or len(out) < 6 or any(x is None for x in out):
+        raise Unsupported("call of get_nn_dist not bound to its six parameters", c)
+    return out
+
+
 def o191(ctx):
     q = RB + "get_nn_dist"
     m, fn = ctx.prog.func(q)
@@ -33,7 +46,10 @@ def o191(ctx):
     tree.tree_space = Space("pts", how="root")
     tree.tree_data = None
     act = Val(sym("active"), space=tree.tree_space)
-    am = assume_map({"dist_min > 0": True})
+    pn = [a_.arg for a_ in fn.args.posonlyargs + fn.args.args]
+    if len(pn) < 6 or len(pn) - len(fn.args.defaults) > 6:
+        raise Unsupported("get_nn_dist: six required positional parameters expected", fn)
+    am = assume_map({f"{pn[3]} > 0": True})
 
     def assume(fn_, node_, av_, module_=None):
         # `<array>.size == 0` (no candidate left) is the early-return path; the rule is about the pair returned when there is one
@@ -344,14 +360,15 @@ def o193(ctx):
         ctx.finding(q, ca, "the finished chain must be concatenated into the tomogram's chain table on the end-of-chain path", ca, m)
     # (e) forward search: exit site of the current particle against the tree of entry sites, flags of the entry list, distance recorded
     calls = [n for n in ast.walk(fl) if isinstance(n, ast.Call) and src(n.func) == "get_nn_dist"]
-    fwd = [c for c in calls if isinstance(c.args[-1], ast.Constant) and c.args[-1].value is True]
+    A = lambda c_: _nn_args(ctx, c_)
+    fwd = [c for c in calls if isinstance(A(c)[-1], ast.Constant) and A(c)[-1].value is True]
     ctx.count(1, {"forward search": src(fwd[0])[:120] if fwd else None})
     if len(fwd) != 1:
         raise Unsupported("forward neighbour search not recognised", fl)
     c = fwd[0]
-    tree_arg, pt_arg = src(c.args[0]), src(c.args[1])
+    tree_arg, pt_arg = src(A(c)[0]), src(A(c)[1])
     entry_tree = [k for k, v in trees.items() if "entry" in src(v.value.args[0])]
-    okf = tree_arg in entry_tree and src(c.args[2]) == "max_distance" and src(c.args[3]) == "min_distance" and "entry" in src(c.args[4])
+    okf = tree_arg in entry_tree and src(A(c)[2]) == "max_distance" and src(A(c)[3]) == "min_distance" and "entry" in src(A(c)[4])
     pdef = [n for n in ast.walk(fl) if isinstance(n, ast.Assign) and src(n.targets[0]) == pt_arg]
     okf = okf and pdef and "exit" in src(pdef[0].value) and idx_name in src(pdef[0].value)
     if not okf:
@@ -369,14 +386,14 @@ def o193(ctx):
         ctx.finding(q, c, "the distance recorded for the former particle must be the one returned together with the chosen next particle", c, m)
     # (f) connection of a finished chain to existing ones: the chain's *first* particle (entry site) is looked up among the exit sites,
     #     the chain's *last* particle (exit site) among the entry sites
-    back = [c_ for c_ in calls if isinstance(c_.args[-1], ast.Constant) and c_.args[-1].value is False]
+    back = [c_ for c_ in calls if isinstance(A(c_)[-1], ast.Constant) and A(c_)[-1].value is False]
     exit_tree = [k for k, v in trees.items() if "exit" in src(v.value.args[0])]
     ctx.count(1, {"connection searches": [src(b_)[:80] for b_ in back]})
-    heads = [b_ for b_ in back if src(b_.args[0]) in exit_tree]
-    tails = [b_ for b_ in back if src(b_.args[0]) in entry_tree]
+    heads = [b_ for b_ in back if src(A(b_)[0]) in exit_tree]
+    tails = [b_ for b_ in back if src(A(b_)[0]) in entry_tree]
     if len(heads) != 1 or len(tails) != 1:
         raise Unsupported("connection searches (one per tree, last argument False) not recognised", fl)
-    hp = src(heads[0].args[1])
+    hp = src(A(heads[0])[1])
     hdefs = [n for n in ast.walk(fl) if isinstance(n, ast.Assign) and src(n.targets[0]) == hp]
 
     def refers_first(n_):
@@ -406,7 +423,7 @@ def o193(ctx):
                     f"the chain table); here the point is defined from {'the current (last) particle ' + idx_name if uses_current else 'something else'}",
                     heads[0], m, definition=[src(d_)[:100] for d_ in hdefs])
     ctx.count(1)
-    if src(tails[0].args[1]) != pt_arg:
+    if src(A(tails[0])[1]) != pt_arg:
         ctx.finding(q, tails[0], "the search for a chain to put in front of must start from the exit site of the finished chain's LAST particle "
                     "(the point used by the forward search)", tails[0], m)
 
@@ -473,7 +490,7 @@ def o198(ctx):
     ctx.touched(q)
     src = lambda n: " ".join(ast.unparse(n).split())
     calls = [n for n in ast.walk(fn) if isinstance(n, ast.Assign) and isinstance(n.value, ast.Call) and src(n.value.func) == "get_nn_dist"
-             and isinstance(n.value.args[-1], ast.Constant) and n.value.args[-1].value is False
+             and isinstance(_nn_args(ctx, n.value)[-1], ast.Constant) and _nn_args(ctx, n.value)[-1].value is False
              and isinstance(n.targets[0], ast.Tuple) and len(n.targets[0].elts) == 2 and all(isinstance(e, ast.Name) for e in n.targets[0].elts)]
     if len(calls) != 2:
         raise Unsupported("connection searches of trace_chains not recognised", fn)
@@ -485,8 +502,8 @@ def o198(ctx):
             blk = b
     if blk is None:
         raise Unsupported("the two connection searches are not in one block", calls[0])
-    head = [c for c in calls if "exit" in src(c.value.args[0])]
-    tail = [c for c in calls if "entry" in src(c.value.args[0])]
+    head = [c for c in calls if "exit" in src(_nn_args(ctx, c.value)[0])]
+    tail = [c for c in calls if "entry" in src(_nn_args(ctx, c.value)[0])]
     if len(head) != 1 or len(tail) != 1:
         raise Unsupported("which search looks for the chain to append to / to put in front of is not recognised", calls[0])
     h, hd = (e.id for e in head[0].targets[0].elts)
